@@ -36,7 +36,7 @@ POSTCONDITION Accepted
 CHECK_DEADLOCK FALSE
 """
 
-UCLASS = {"expr": "expr", "meta": "expr", "args": "expr", "elts": "expr", "stmts": "stmts"}
+UCLASS = {"expr": "expr", "meta": "expr", "multi": "expr", "args": "expr", "elts": "expr", "stmts": "stmts"}
 
 
 def metas_of(t, acc):
@@ -109,7 +109,7 @@ def replay_and_judge(ctx, name, vecs, subjects_file, shards):
     return out
 
 
-def classify(ctx, results, known, accept_classes=None):
+def classify(ctx, results, known, accept_classes=None, stmt_wrongrepl=False):
     """Turn verdict records into violations / known findings. Returns stats."""
     st = dict(cases=0, ok=0, failing=0, errors=0, drift=0, sites_failed=0, sites=0, nontrivial=0, changed=0)
     for c, v in results:
@@ -128,7 +128,8 @@ def classify(ctx, results, known, accept_classes=None):
         unknown = []
         for f in v["fails"]:
             st["sites_failed"] += 1
-            if accept_classes is not None and f["c"] not in accept_classes:
+            if accept_classes is not None and f["c"] not in accept_classes and \
+                    not (stmt_wrongrepl and f["c"] == "wrongrepl" and c.get("class") == "stmts"):
                 continue
             if f["known"] and f["known"].split("/", 1)[1] in known:
                 key = f["known"].split("/", 1)[1]
